@@ -30,14 +30,14 @@ var c18EmacsKeys = []string{"a", "b", " ", "x", "\"", "'", "\\", "(", "é", "1",
 
 func genC18(t *rapid.T) *C18Case {
 	c := &C18Case{Style: rapid.SampledFrom([]string{"emacs", "emacs", "vi"}).Draw(t, "style")}
-	c.B0 = rapid.SampledFrom([]string{"", "foo bar", "hello world again", "a", "x y z", "--flag=v 'q'", "one two"}).Draw(t, "b0")
+	c.B0 = rapid.SampledFrom([]string{"", "foo bar", "hello world again", "a", "x y z", "--flag=v 'q'", "one two", "say \"hello\" and \"world\"", "f(a, b) 'x'"}).Draw(t, "b0")
 
 	if c.Style == "emacs" {
 		n := rapid.IntRange(1, 25).Draw(t, "n")
 
 		for i := 0; i < n; i++ {
 			if rapid.IntRange(0, 11).Draw(t, "quoted") == 0 {
-				c.K = append(c.K, encs("\x16"), encs(rapid.SampledFrom([]string{"a", "\x01", "\x1b", "\t", "\x7f"}).Draw(t, "qarg")))
+				c.K = append(c.K, encs("\x16"), encs(rapid.SampledFrom([]string{"a", "\x01", "\x1b", "\t", "\x7f", "\x1c", "\x1d", "\x1f", "\x00", "\\", "\""}).Draw(t, "qarg")))
 				continue
 			}
 
@@ -51,11 +51,17 @@ func genC18(t *rapid.T) *C18Case {
 	n := rapid.IntRange(1, 12).Draw(t, "n")
 
 	for i := 0; i < n; i++ {
-		switch rapid.IntRange(0, 5).Draw(t, "vikind") {
+		switch rapid.IntRange(0, 7).Draw(t, "vikind") {
+		case 6: // operator + text object named by a character the command reads itself
+			c.K = append(c.K, encs(rapid.SampledFrom([]string{"d", "c", "y"}).Draw(t, "op")), encs(rapid.SampledFrom([]string{"i", "a"}).Draw(t, "ia")),
+				encs(rapid.SampledFrom([]string{"\"", "'", "(", "w", "W"}).Draw(t, "obj")))
+			c.K = append(c.K, encs("\x1b"))
+		case 7: // character searches
+			c.K = append(c.K, encs(rapid.SampledFrom([]string{"f", "F", "t", "T"}).Draw(t, "find")), encs(rapid.SampledFrom([]string{"o", " ", "\"", "a"}).Draw(t, "farg")))
 		case 0: // insertion
 			c.K = append(c.K, encs(rapid.SampledFrom([]string{"i", "a", "A", "I"}).Draw(t, "ins")))
 
-			for _, r := range rapid.SampledFrom([]string{"x", "ab", "\"q\"", "a b", "\\"}).Draw(t, "instext") {
+			for _, r := range rapid.SampledFrom([]string{"x", "ab", "\"q\"", "a b", "\\", "\x16\x1c", "\x16\x1d"}).Draw(t, "instext") {
 				c.K = append(c.K, encs(string(r)))
 			}
 
